@@ -142,3 +142,36 @@ def next_terminals(rules, ts, toks, start='start'):
 
 def can_end(rules, ts, toks, start='start'):
     return accepts(rules, toks, start)
+
+
+def gen_context_cfg(rng):
+    """Grammars where one non-terminal is used in several left/right contexts through chains of unit rules:
+    the LALR(1) look-ahead sets of the inner reductions are merged over the contexts, so an erroneous token may be
+    noticed only after several reductions."""
+    ts = ['A', 'B', 'C', 'D', 'E']
+    depth = rng.randint(1, 3)
+    chain = ['n%d' % i for i in range(1, depth + 1)]
+    rules = []
+    nctx = rng.randint(2, 3)
+    used = set()
+    for i in range(nctx):
+        l = rng.choice(ts[:3])
+        r = rng.choice(ts[1:])
+        if (l, r) in used:
+            continue
+        used.add((l, r))
+        if rng.random() < 0.3:
+            rules.append(('start', (l, chain[0], r, rng.choice(ts))))
+        else:
+            rules.append(('start', (l, chain[0], r)))
+    for a, b in zip(chain, chain[1:]):
+        rules.append((a, (b,)))
+        if rng.random() < 0.3:
+            rules.append((a, (b, rng.choice(ts))))
+    leaf = chain[-1]
+    rules.append((leaf, (rng.choice(ts),)))
+    if rng.random() < 0.5:
+        rules.append((leaf, (rng.choice(ts), leaf)))
+    rules = sorted(set(rules), key=lambda r: (r[0] != 'start', r))
+    used_ts = [t for t in ts if any(t in rhs for _, rhs in rules)]
+    return rules, used_ts
